@@ -181,3 +181,11 @@ Theorem C04_source_effects :
   (forall q, peq (src_round_trip q) (round_trip q)).
 Proof. exact tie_round_trip. Qed.
 Print Assumptions C04_source_effects.
+
+(* ... and StoreResponse (hop-by-hop fields removed first, the variant key, the entry written before the index, the index
+   entry appended or replaced), serveFromCache and handleStaleWhileRevalidate (qualified no-cache fields removed, Age, status,
+   the background revalidation started with the stored validators) *)
+Theorem C04_source_effects2 :
+  (forall q r k refs a b i, peq (src_store_response q r k refs a b i) (store_response q r k refs a b i)).
+Proof. exact tie_store_response. Qed.
+Print Assumptions C04_source_effects2.
